@@ -73,6 +73,24 @@ CHECKS = {
                  "switch and path-loss change between transmissions)."),
         "note": "Trusted: the reference loops (numpy einsum/fft). Convention: response sample j applies to input sample j.",
     },
+    "C13": {
+        "engine": "simkit", "level": "exploration", "design_ref": "DESIGN.md section 4 (C13)",
+        "technique": "deterministic simulation of setter histories on one path-loss model incl. rejected setters, stateless reference formulas / fresh-object reference evaluated from the public current parameters after every step",
+        "text": ("Seeded exploration of setter histories (valid and invalid values, policy flag) on every path-loss model. After every step: loss equals the stateless reference evaluated from "
+                 "the PUBLIC current parameters (Friis within 0.01 dB for free space n=2, a freshly constructed model for other exponents, the cited formulas for 3GPP/METIS/Hata), dB "
+                 "non-decreasing, linear = 10^(-dB/10) in (0,1], inverse queries exact where offered, too-small distances raise or clamp per policy, scalar and array calls agree, a rejected "
+                 "setter changes nothing. Honest scope: only PathLossFreeSpace caches a derived value; the history clause is what the simulator adds."),
+        "note": "Trusted: the re-implemented formulas. Shadowing never enabled. The antenna-gain clause is evaluated as a side assertion only.",
+    },
+    "C15": {
+        "engine": "simkit", "level": "exploration", "design_ref": "DESIGN.md section 4 (C15)",
+        "technique": "deterministic simulation of construct/setPhaseOffset histories with a nearest-neighbour label-adjacency oracle after every step",
+        "text": ("History clause only: construct PSK/QAM/BPSK/QPSK, apply 0-6 setPhaseOffset calls, and after every step require that all symbol pairs at minimum distance carry labels differing in "
+                 "exactly one bit (all PSK orders 2..2^10, QAM 4..4^5 in the quick tier). Two genuine defects are pinned by existing tests and therefore recorded as known findings "
+                 "(PSK.setPhaseOffset, QAM M>=64); anything else (PSK at construction, QAM 4/16, BPSK, QPSK) still raises a VIOLATION. The code conversions and bit counting are pure "
+                 "functions and are not decided by this technique."),
+        "note": "Trusted: the O(M^2) adjacency oracle with its own popcount.",
+    },
 }
 
 _PENDING = ["C03", "C06", "C08", "C10", "C13", "C14", "C15"]
